@@ -113,7 +113,7 @@ def check_c10(ctx):
     # parseable but ill-formed programs: declarations (descriptor lists and bound rows from well- and ill-formed pieces x one use
     # of the declared predicate, DeclGen.tla), programs with wrong-arity constructor applications in heads and senseless
     # transforms (VocabBad), and every clause shape of the C04 family (unsafe ones included)
-    for tag, module, cfg, sample in (("decl", "DeclGen", "DeclGen.cfg", 12000 if quick else None), ("bad", "MC_GenBad", "MC_GenBad.cfg", 8000 if quick else None),
+    for tag, module, cfg, sample in (("decl", "DeclGen", "DeclGen.cfg", 12000 if quick else None), ("bad", "MC_GenBad", "MC_GenBad.cfg", 8000 if quick else None), ("bad3", "MC_GenBad", "MC_GenBad3.cfg", None),
                                      ("shapes", "MC_GenC04", "MC_GenC04_two.cfg", 6000 if quick else None)):
         allp = os.path.join(ctx.work, "fe_%s_all.ndjson" % tag)
         g = ctx.gen_cases(module, cfg, allp, workers=8, idprefix=tag + "-")
@@ -127,7 +127,7 @@ def check_c10(ctx):
     ctx.assumptions += ["bounded-exhaustive over a symbolic token alphabet and single edits, not coverage-guided byte fuzzing: inputs whose trigger needs a long specific byte pattern are out of reach",
                         "every stage runs under recover() with a 20 s deadline; batches run in child processes with a 6 GB address-space limit; a batch that dies is bisected to the single input"]
     return ctx.finish("exploration",
-                      "inputs generated by TLC from Frontend.tla: all token strings of length <= 2 (quick) / 3 (thorough) over 58 tokens; delete/duplicate/swap/truncate/replace (28 replacement tokens) at 30 positions of 35 seed programs; 13 kinds of line corruption at 30 positions of 14 seed fact files; declarations assembled from 21 descriptor lists x 33 bound types x 9 uses x arity 0-2 (DeclGen.tla); one-rule programs with wrong-arity constructor heads and 15 ill-formed transforms (VocabBad); the C04 clause shapes. "
+                      "inputs generated by TLC from Frontend.tla: all token strings of length <= 2 (quick) / 3 (thorough) over 58 tokens; delete/duplicate/swap/truncate/replace (28 replacement tokens) at 30 positions of 35 seed programs; 13 kinds of line corruption at 30 positions of 14 seed fact files; declarations assembled from 21 descriptor lists x 33 bound types x 9 uses x arity 0-2 (DeclGen.tla); one-rule programs with wrong-arity constructor heads and 15 ill-formed transforms, and every body of <= 3 literals incl. negated built-ins (VocabBad); the C04 clause shapes. "
                       "Each input goes through parse.Unit/Clause/Term/BaseTerm/Atom/LiteralOrFormula/PredicateName, AnalyzeAndCheckBounds, EvalProgram under a fact limit, or ReadInto and the lazy store; non-trivial = input that got past the parser (or the .sc header); distinct by input text")
 
 
